@@ -10,6 +10,7 @@ import p_own
 import p_guards
 import p_mapped
 import p_effect
+import p_effect_ir
 import p_dynamic
 import p_segmentation
 import p_cwrap
@@ -116,7 +117,7 @@ def rules_c07(ctx):
 def rules_c08(ctx):
     S = p_search
     return (S.rule_range_form(ctx, 'compressed') + S.rule_agree_eps(ctx, 'compressed') + S.rule_clamp(ctx, 'compressed') + S.rule_cap(ctx, 'compressed') +
-            S.rule_kind_compressed(ctx) + S.rule_window_form(ctx, 'compressed') + S.rule_compressed_level(ctx))
+            S.rule_kind_compressed(ctx) + S.rule_window_form(ctx, 'compressed') + S.rule_compressed_level(ctx) + p_segmentation.rule_precision(ctx))
 
 
 def rules_c09(ctx):
@@ -242,8 +243,23 @@ PROPS['C12'] = {
 }
 
 
+def rules_c16(ctx):
+    obs = p_effect.rules_c16(ctx)
+    if ctx.tier == 'thorough':
+        obs += p_effect_ir.rules_ir(ctx)
+    return obs
+
+
+def extra_c16(ctx, obs):
+    e = p_effect.extra(ctx, obs)
+    for k in ('ir_externals_used', 'ir_externals_unlisted_anywhere_in_module', 'ir_functions_defined', 'ir_entry_points'):
+        if k in ctx.stats:
+            e[k] = ctx.stats[k]
+    return e
+
+
 PROPS['C16'] = {
-    'level': 'proof', 'rules': p_effect.rules_c16, 'extra': p_effect.extra,
+    'level': 'proof', 'rules': rules_c16, 'extra': extra_c16,
     'selftests': [('EFFECT on selftest/pos/effect.cpp', p_effect.selftest)],
     'technique': 'static analysis: interprocedural write-effect analysis (abstract locations this / pointee-of-field / parameter / static storage, call-graph fixpoint of per-function summaries) over the instantiated clang AST; thorough tier adds an independent LLVM-IR store analysis',
     'decides': [
@@ -302,7 +318,7 @@ PROPS['C03'] = {
         'NO-DROP: a point rejected by the builder is re-added (same x, y) after out(opt.get_segment()), under the false outcome only; the final out(opt.get_segment()) is on every path and outside any loop',
         'RANK-AGREE: every add has one of three shapes: (in(e), e); gap point (succ(in(i)), i) guarded by succ(in(i)) < in(i+1) (GAP-GUARD, decided by normal form); closing point (succ(in(n-1)), n) - succ is +1 or nextafter(., +inf)',
         'OMP-ORDER: inside the parallel region only chunk-private state, the reduction variable and results[i] are written; the caller\'s callback is neither used nor captured inside; it is invoked after the region in chunk order; the last chunk ends at n (proved by normal form, refuted by a concrete witness)',
-        'KEY-ARITH: no difference/sum of two keys is evaluated in a signed type of the key\'s width; GEOM-GUARDS: the two cut tests and the two hull-tightening tests of add_point are the strict comparisons of the algorithm',
+        'PRECISION: the intersection point, slope range and floating-point segment are computed in long double throughout (no narrower cast or arithmetic); KEY-ARITH: no difference/sum of two keys is evaluated in a signed type of the key\'s width; GEOM-GUARDS: the two cut tests and the two hull-tightening tests of add_point are the strict comparisons of the algorithm',
     ],
     'not_decided': 'the epsilon bound itself: |line(x) - y| <= epsilon + rounding needs the exact geometry of the hull update and of get_floating_point_segment; no static argument in reach',
     'explanation': 'Clause-level static claim for C03: no point is dropped, ranks are the keys\' indices, points and segments come out in order; the numeric bound is not claimed.',
